@@ -72,6 +72,29 @@ func jConsumers(b []byte) {
 	// value skipped because the target has no matching field
 	impl = append(impl, try(func() error { var s struct{}; return json.Unmarshal(wrapObj, &s) }))
 	orc = append(orc, try(func() error { var s struct{}; return stdjson.Unmarshal(wrapObj, &s) }))
+	// the struct decoder itself (not its unknown-field skip): b as the document of a struct, of a struct-typed field, of
+	// the elements of a slice of structs and of a map of structs -- it accepts exactly the objects (or null) Valid accepts
+	type inner struct {
+		X any `json:"x"`
+	}
+	impl = append(impl, try(func() error { var s inner; return json.Unmarshal(b, &s) }))
+	orc = append(orc, try(func() error { var s inner; return stdjson.Unmarshal(b, &s) }))
+	impl = append(impl, try(func() error {
+		var s struct {
+			X inner            `json:"x"`
+			L []inner          `json:"l"`
+			M map[string]inner `json:"m"`
+		}
+		return json.Unmarshal(append(append(append(append(append([]byte(`{"l":[`), b...), `],"m":{"k":`...), b...), `},"x":`...), append(b, '}')...), &s)
+	}))
+	orc = append(orc, try(func() error {
+		var s struct {
+			X inner            `json:"x"`
+			L []inner          `json:"l"`
+			M map[string]inner `json:"m"`
+		}
+		return stdjson.Unmarshal(append(append(append(append(append([]byte(`{"l":[`), b...), `],"m":{"k":`...), b...), `},"x":`...), append(append([]byte(nil), b...), '}')...), &s)
+	}))
 	// value skipped because the array target has no slot left
 	impl = append(impl, try(func() error { var s [1]int; return json.Unmarshal(wrapArr, &s) }))
 	orc = append(orc, try(func() error { var s [1]int; return stdjson.Unmarshal(wrapArr, &s) }))
@@ -124,6 +147,36 @@ func jConsumers(b []byte) {
 				M map[string]stdjson.RawMessage
 			}{1, stdjson.RawMessage(b), map[string]stdjson.RawMessage{"k": stdjson.RawMessage(b)}})
 		}))
+	}
+	// the Tokenizer, fresh and REUSED after a plain document (Reset recomputes what it knows about the input)
+	tokRun := func(reuse bool) byte {
+		return try(func() error {
+			t := json.NewTokenizer(b)
+			if reuse {
+				t = json.NewTokenizer([]byte(`["plain", "ascii", 123, true]`))
+				for t.Next() {
+				}
+				t.Reset(b)
+			}
+			n := 0
+			for t.Next() {
+				n++
+			}
+			if t.Err != nil {
+				return t.Err
+			}
+			if n == 0 {
+				return io.ErrUnexpectedEOF
+			}
+			return nil
+		})
+	}
+	fresh := tokRun(false)
+	impl = append(impl, fresh, tokRun(true))
+	if stdjson.Valid(b) {
+		orc = append(orc, 'a', 'a') // every valid document is tokenized to its end without error
+	} else {
+		orc = append(orc, fresh, fresh) // the Tokenizer is looser than Valid on invalid texts; a reused one is not looser than a fresh one
 	}
 	// Decoder framing of the first value
 	impl = append(impl, try(func() error { var r json.RawMessage; return json.NewDecoder(bytes.NewReader(b)).Decode(&r) }))
